@@ -151,6 +151,8 @@ pub fn parse_yaml<'a>(t: &mut std::slice::Iter<'a, &'a str>) -> Option<Yaml<'sta
     } else if let Some(i) = tok.strip_prefix("I:") {
         Yaml::Value(Scalar::Integer(i.parse().ok()?))
     } else if let Some(b) = tok.strip_prefix("D:") {
+        // D:<bits>[:<display text, for the model only>]
+        let b = b.split(':').next()?;
         Yaml::Value(Scalar::FloatingPoint(f64::from_bits(u64::from_str_radix(b, 16).ok()?).into()))
     } else if let Some(h) = tok.strip_prefix("S:") {
         Yaml::Value(Scalar::String(unhex(h).into()))
